@@ -51,7 +51,9 @@ theorem candNamesB_sound (U : Universe) (h : candNamesB U = true) : CandNames U 
 
 theorem candsOf_sub (U : Universe) (vs c : Nat) (h : c ∈ U.candsOf vs) :
     ∃ p, U.pkg? (U.vsName vs) = some p ∧ c ∈ p.cands := by
-  unfold Universe.candsOf Universe.pkgCands at h
+  unfold Universe.candsOf at h
+  rw [Universe.mem_reord] at h
+  unfold Universe.pkgCands at h
   have hm := (List.mem_filter.mp h).1
   cases hp : U.pkg? (U.vsName vs) with
   | none => rw [hp] at hm; cases hm
